@@ -116,3 +116,52 @@ M("C15", "kwargs sets differ", SVD, 'solver_kwargs.setdefault("n_power_iter", 4)
 B("C15", "solver_kwargs copied first", DEC, "            solver_kwargs = self.solver_kwargs | {\n                \"n_components\": self.n_modes_precompute,", "            user = self.solver_kwargs\n            solver_kwargs = user | {\n                \"n_components\": self.n_modes_precompute,")
 B("C15", "sign multiplier renamed", DEC, "", "", edits=[("            sign_multiplier = get_deterministic", "            flip = get_deterministic"), ("VT *= sign_multiplier", "VT *= flip"), ("U *= sign_multiplier", "U *= flip")])
 B("C15", "threshold with hoisted count", SVD, "            n_modes_required = (\n                self.n_modes_precompute - (cum_expvar >= self.n_modes).sum() + 1\n            )", "            n_modes_required = (\n                1 + self.n_modes_precompute - (cum_expvar >= self.n_modes).sum()\n            )")
+
+# ---------------------------------------------------------------- C09
+CP = "xeofs/cross/cpcca.py"
+M("C09", "std ddof mismatch", CP, "return X / X.std(dim, ddof=1)", "return X / X.std(dim)", "NORM.pair.correlation")
+M("C09", "cross-covariance /n", CP, "return X.conj().T @ Y / (n_samples_x - 1)", "return X.conj().T @ Y / n_samples_x", "NORM.pair")
+M("C09", "residual /n in scf", CP, "return np.linalg.norm(dX.conj().T @ dY / (dX.shape[0] - 1)) ** 2", "return np.linalg.norm(dX.conj().T @ dY / dX.shape[0]) ** 2", "NORM.pair.cpcca")
+M("C09", "drop conj in cross-covariance", CP, "return X.conj().T @ Y / (n_samples_x - 1)", "return X.T @ Y / (n_samples_x - 1)", "CONJ.herm")
+M("C09", "whitener gram without conj", "xeofs/preprocessing/whitener.py", "C = X.conj().T @ X / nc", "C = X.T @ X / nc", "CONJ.herm")
+M("C09", "predict kernel without conj", CP, "G = Rx.conj().T @ Ry / np.linalg.norm(Rx, axis=0) ** 2", "G = Rx.T @ Ry / np.linalg.norm(Rx, axis=0) ** 2", "CONJ.herm")
+M("C09", "pearson without conj", "xeofs/utils/optional/statistics.py", "return X.conj().T @ Y / X.shape[0]", "return X.T @ Y / X.shape[0]", "CONJ.herm")
+M("C09", "pearson ddof", "xeofs/utils/optional/statistics.py", "        X = X / X.std(0)\n", "        X = X / X.std(0, ddof=1)\n", "NORM.pair.pearson")
+M("C09", "sample-count raise deleted", CP, "        if n_samples_x != n_samples_y:\n            err_msg = f\"Both data matrices must have the same number of samples but found {n_samples_x} in the first and {n_samples_y} in the second.\"\n            raise ValueError(err_msg)\n", "", "GUARD.samples")
+M("C09", "scores2 from Q1", CP, "scores2 = xr.dot(Y, Q2, dims=feature_name[1])", "scores2 = xr.dot(Y, Q1, dims=feature_name[1])", "INDEX.dot")
+M("C09", "components2 in X branch", CP, '            comps1 = self.data["components1"]\n            norm1 = self.data["norm1"]', '            comps1 = self.data["components2"]\n            norm1 = self.data["norm1"]', "INDEX.dot")
+M("C09", "norm2 scales scores1", CP, "                scores1 = scores1 / norm1\n            results[\"X\"] = scores1", "                scores1 = scores1 / norm2\n            results[\"X\"] = scores1", "INDEX.norm",
+  edits=[('            comps1 = self.data["components1"]\n            norm1 = self.data["norm1"]', '            comps1 = self.data["components1"]\n            norm1 = self.data["norm2"]')])
+M("C09", "whitener2 on X in scf", CP, "        X1 = self.whitener1.inverse_transform_data(X1)\n        X2 = self.whitener2.inverse_transform_data(X2)\n\n        # Rename the sample dimension to avoid conflicts for\n        # different coordinates with same length\n        X1 = X1.rename({self.sample_name: sample_name_x})",
+  "        X1 = self.whitener2.inverse_transform_data(X1)\n        X2 = self.whitener2.inverse_transform_data(X2)\n\n        # Rename the sample dimension to avoid conflicts for\n        # different coordinates with same length\n        X1 = X1.rename({self.sample_name: sample_name_x})", "INDEX.stage")
+M("C09", "heterogeneous not crossed", CP, "        patterns1, pvals1 = pearson_correlation(\n            input_data1,\n            scores2,", "        patterns1, pvals1 = pearson_correlation(\n            input_data1,\n            scores1,", "INDEX.correlation")
+M("C09", "homogeneous crossed", CP, "        hom_pat1, pvals1 = pearson_correlation(\n            input_data1,\n            scores1,", "        hom_pat1, pvals1 = pearson_correlation(\n            input_data1,\n            scores2,", "INDEX.correlation")
+M("C09", "inverse without conj", CP, 'results["X"] = xr.dot(X, comps1.conj(), dims="mode")', 'results["X"] = xr.dot(X, comps1, dims="mode")', "CONJ.model.reconstruct")
+M("C09", "norm without conj", CP, "norm1 = np.sqrt(xr.dot(scores1.conj(), scores1, dims=self.sample_name)).real", "norm1 = np.sqrt(xr.dot(scores1, scores1, dims=self.sample_name)).real", "CONJ.model.norm")
+M("C09", "metric reconstruction without conj", CP, "            Xr = xr.dot(Rx.sel(mode=[mode]), Qx.sel(mode=[mode]).conj().T, dims=\"mode\")", "            Xr = xr.dot(Rx.sel(mode=[mode]), Qx.sel(mode=[mode]).T, dims=\"mode\")", "CONJ.model.metric")
+B("C09", "hoist dof", CP, "        return X.conj().T @ Y / (n_samples_x - 1)", "        dof = n_samples_x - 1\n        return X.conj().T @ Y / dof")
+B("C09", "rename comps", CP, "            comps1 = self.data[\"components1\"]\n            norm1 = self.data[\"norm1\"]\n            scores1 = xr.dot(X, comps1)", "            c1 = self.data[\"components1\"]\n            norm1 = self.data[\"norm1\"]\n            scores1 = xr.dot(X, c1)")
+B("C09", "hermitian via named XH", CP, "        return X.conj().T @ Y / (n_samples_x - 1)", "        XH = X.conj().T\n        return XH @ Y / (n_samples_x - 1)")
+B("C09", "guard with == and else", CP, "        if n_samples_x != n_samples_y:\n            err_msg = f\"Both data matrices must have the same number of samples but found {n_samples_x} in the first and {n_samples_y} in the second.\"\n            raise ValueError(err_msg)\n        return X.conj().T @ Y / (n_samples_x - 1)",
+  "        if n_samples_x == n_samples_y:\n            return X.conj().T @ Y / (n_samples_x - 1)\n        else:\n            raise ValueError(\"Both data matrices must have the same number of samples\")")
+
+# ---------------------------------------------------------------- C16
+WH = "xeofs/preprocessing/whitener.py"
+PC = "xeofs/preprocessing/pca.py"
+M("C16", "Tinv->T in inverse_transform_components", WH, "VS = self.Tinv.conj().T", "VS = self.T.conj().T", "ADJOINT.maps")
+M("C16", "conj dropped in transform_components", WH, "VS = self.T.conj().T", "VS = self.T.T", "ADJOINT.maps.adjoint")
+M("C16", "inverse data uses T", WH, 'return xr.dot(X, self.Tinv, dims="mode")', 'return xr.dot(X, self.T, dims="mode")', "ADJOINT.maps")
+M("C16", "Tinv = pinv(C)", WH, "Tinv = np.linalg.inv(T)", "Tinv = np.linalg.inv(C)", "ADJOINT.inverse")
+M("C16", "kernel returns swapped", WH, "        return T, Tinv\n\n    def transform", "        return Tinv, T\n\n    def transform", "ADJOINT.inverse.order")
+M("C16", "exponent sign flipped", WH, "power = (self.alpha - 1) / 2", "power = (1 - self.alpha) / 2", "ADJOINT.power")
+M("C16", "exponent alpha/2", WH, "power = (self.alpha - 1) / 2", "power = self.alpha / 2", "ADJOINT.power")
+M("C16", "PCA inverse components conj", PC, "            V = self.V\n            V = V.rename", "            V = self.V.conj()\n            V = V.rename", "ADJOINT.maps.adjoint")
+M("C16", "PCA inverse data without conj", PC, 'return xr.dot(X, self.V.conj().T, dims="mode")', 'return xr.dot(X, self.V.T, dims="mode")', "ADJOINT.maps")
+M("C16", "PCA transform contracts mode", PC, "transformed = xr.dot(X, self.V, dims=self.feature_name)", 'transformed = xr.dot(X, self.V, dims="mode")', "ADJOINT.dims")
+M("C16", "rebuild without conj", "xeofs/linalg/_numpy/_utils.py", "C_scaled = V @ np.diag(s**power) @ V.conj().T", "C_scaled = V @ np.diag(s**power) @ V.T", "ADJOINT.rebuild.power")
+M("C16", "rebuild wrong power", "xeofs/linalg/_numpy/_utils.py", "C_scaled = V @ np.diag(s**power) @ V.conj().T", "C_scaled = V @ np.diag(s) @ V.conj().T", "ADJOINT.rebuild.power")
+M("C16", "sanity check dropped in transform", WH, "        self._sanity_check_input(X)\n        if self.is_identity:\n            return X\n        else:\n            transformed", "        if self.is_identity:\n            return X\n        else:\n            transformed", "GUARD.sanity")
+M("C16", "gram X X^H", WH, "C = X.conj().T @ X / nc", "C = X @ X.conj().T / nc", "ADJOINT.rebuild.gram")
+B("C16", "hoist Tinv adjoint", WH, "            VS = self.Tinv.conj().T\n", "            Tinv = self.Tinv\n            VS = Tinv.conj().T\n")
+B("C16", "exponent 0.5*(alpha-1)", WH, "power = (self.alpha - 1) / 2", "power = 0.5 * (self.alpha - 1)")
+B("C16", "transpose via method", WH, "VS = self.T.conj().T", "VS = self.T.conj().transpose()")
